@@ -33,14 +33,44 @@ class Variant:
 
 
 def _registry(prop):
+    out = []
     try:
         mod = importlib.import_module("vf.variants.%s" % prop.lower())
+        out.extend(mod.VARIANTS)
     except ImportError:
-        return []
-    return list(mod.VARIANTS)
+        pass
+    # regressions: every repaired defect, re-introduced by reverse-applying its fix commit's diff
+    fdir = os.path.join(HERE, "vf", "variants", "fixes")
+    idx = os.path.join(fdir, "index.json")
+    if os.path.exists(idx):
+        import json
+        for commit, entries in sorted(json.load(open(idx)).items()):
+            for p, what in entries:
+                if p == prop:
+                    v = Variant(prop, "revert-fix-%s" % commit, [], expect="%s." % prop, why=what)
+                    v.patch = (os.path.join(fdir, commit + ".diff"), True)
+                    out.append(v)
+    # independently seeded breaking changes kept under /verif/seeded
+    sdir = os.path.join(HERE, "seeded")
+    if os.path.isdir(sdir):
+        import json
+        for sid in sorted(os.listdir(sdir)):
+            meta = os.path.join(sdir, sid, "meta.json")
+            patch = os.path.join(sdir, sid, "patch.diff")
+            if os.path.exists(meta) and os.path.exists(patch) and json.load(open(meta)).get("breaks_property") == prop:
+                v = Variant(prop, "seeded-%s" % sid, [], expect="%s." % prop, why=json.load(open(meta)).get("change", ""))
+                v.patch = (patch, False)
+                out.append(v)
+    return out
 
 
 def _apply(root, variant):
+    patch = getattr(variant, "patch", None)
+    if patch is not None:
+        import subprocess
+        cmd = ["git", "apply"] + (["-R"] if patch[1] else []) + [patch[0]]
+        r = subprocess.run(cmd, cwd=root, capture_output=True, text=True)
+        return r.returncode == 0
     for e in variant.edits:
         rel, old, new = e[0], e[1], e[2]
         p = os.path.join(root, "src", "py_gql", rel)
@@ -88,7 +118,7 @@ def _run_variant(args):
             if new:
                 return (name, "problem", "benign twin raised: %s" % sorted(new))
             return (name, "silent", "")
-        hit = [i for i in new if i.startswith(variant.expect + "|")]
+        hit = [i for i in new if i.startswith(variant.expect + "|") or (variant.expect.endswith(".") and i.startswith(variant.expect))]
         if hit:
             return (name, "detected", hit[0])
         return (name, "problem", "mutant not reported by %s (new findings: %s)" % (variant.expect, sorted(new)))
